@@ -425,9 +425,11 @@ func applyOp(e *Env, toks []string) opResult {
 		for i := 1; i+1 < len(t); i += 2 {
 			cs = append(cs, govChange(t[i], t[i+1]))
 		}
-		res, _ := e.Gov(cs)
-		r.res = res
-		r.st, r.evs, r.raw = e.Observe(), L{}, sdk.Events{}
+		res, em := e.Gov(cs)
+		r.res, r.errm = res, em
+		if res == ResOK {
+			r.st, r.evs, r.raw = e.Observe(), L{}, sdk.Events{}
+		}
 	case "T":
 		msg := e.buildMsg(t[1:])
 		res, evs, em := e.RunTx(msg)
@@ -586,7 +588,7 @@ type gsession struct {
 func (s *gsession) exec(toks []string) bool {
 	e, rn := s.e, s.rn
 	var before string
-	if rn != nil && toks[0] == "T" {
+	if rn != nil && (toks[0] == "T" || toks[0] == "V") {
 		before = e.RawDump()
 	}
 	o := applyOp(e, toks)
@@ -596,7 +598,7 @@ func (s *gsession) exec(toks []string) bool {
 		switch {
 		case o.res == ResOK:
 			rn.emitObs(o.kind, o.res, o.st, o.raw, nil, "")
-		case o.kind == "T":
+		case o.kind == "T" || o.kind == "V":
 			same := before == e.RawDump()
 			rn.emitObs(o.kind, o.res, nil, nil, &same, o.errm)
 		default:
